@@ -57,8 +57,11 @@ fn actions(full: bool) -> Vec<(String, Kind)> {
         // output that depends on the variable store and on the DEFtype table
         "Q=Q+1.5:PRINT Q;",
         "DEFINT Q",
+        "REM",
+        "'x",
     ];
-    let bodies_small = ["Q=Q+1.5:PRINT Q;", "GOTO 30", "GOSUB 30", "RETURN", "STOP", "DEF FNA(X)=X+2", "PRINT )", "DELETE 30", "NEW"];
+    // (a remark line is a line too: it is a legal target and changes the compiled program)
+    let bodies_small = ["REM", "Q=Q+1.5:PRINT Q;", "GOTO 30", "GOSUB 30", "RETURN", "STOP", "DEF FNA(X)=X+2", "PRINT )", "DELETE 30", "NEW"];
     for n in [10, 20, 30] {
         if full {
             for b in bodies_full {
